@@ -221,6 +221,10 @@ def micro_c07_scenario(r) -> Dict[str, Any]:
         for c in [sc["lend"]["default"]] + list(sc["lend"]["per_symbol"].values()):
             c["req"] = r.choice(["0.25", "0.5", "1"])
             c["interest_symbol"] = "USD"
+        if r.random() < 0.4:
+            # the second loan fails for a reason other than funds: the quote symbol cannot be borrowed at all
+            sc["lend"]["default"] = None
+            sc["lend"]["per_symbol"].pop("USD", None)
         for key in list(actions):
             for _ in range(r.choice([1, 2])):
                 actions[key].insert(0, {"op": "order", "kind": r.choice(["limit", "market", "stop"]), "side": "sell",
